@@ -100,10 +100,24 @@ def run_property(pid, tier, seed):
                 covers_ok += 1
             else:
                 engine_errors.append(f'vacuity: cover `{label}` not satisfiable (contradictory assumptions?)')
+        if r.get('unreached'):
+            engine_errors.append(f'vacuity: statements of {u.qual} at lines {r["unreached"]} lie on no feasible path (dead under the contract?)')
         for want in getattr(u, 'expected_exits', ()):
             key = f'{u.qual}: exit:{want}'
             if r['status'] == 'ok' and key not in r['covers']:
                 engine_errors.append(f'vacuity: unit {u.name} has no feasible `{want}` exit')
+
+    # every discharged obligation must have satisfiable hypotheses (otherwise it holds vacuously)
+    vac = 0
+    for o in asserts:
+        if o.result != 'discharged':
+            continue
+        sv = z3.Solver()
+        sv.set('timeout', 5000)
+        sv.add(o.hyps)
+        if sv.check() == z3.unsat:
+            vac += 1
+            engine_errors.append(f'vacuity: hypotheses of `{o.name}` are unsatisfiable')
 
     failed = [o for o in asserts if o.result == 'failed']
     undec_obls = [o for o in asserts if o.result == 'undecided']
